@@ -43,12 +43,6 @@ theorem binaryResult_exact (op : BinaryOperator) (l r : Int) (hl : InRange l) (h
   case Remainder => exact rem_case l r hl hr
   case RemainderAssign => exact rem_case l r hl hr
 
-/-- the i64 boundary cases named by the property: `MIN / -1` and `MIN % -1` are errors, not wrapped values -/
-example : (binaryResult .Divide (-9223372036854775808) (-1)).value? = none ∧
-    (binaryResult .Remainder (-9223372036854775808) (-1)).value? = none ∧
-    (binaryResult .ShiftLeft 1 63).value? = none ∧ (binaryResult .ShiftLeft 1 62).value? = some 4611686018427387904 ∧
-    (binaryResult .ShiftRight (-7) 1).value? = some (-4) ∧ (binaryResult .ShiftRight 1 64).value? = none ∧
-    (binaryResult .Multiply 4294967296 2147483648).value? = none := by decide
 
 /-- ★ the left-shift filter of the code (`result >= 0 && result >> rhs == lhs` on the *wrapped* shift)
     passes exactly when the exact product fits. -/
@@ -132,7 +126,6 @@ theorem longest_match (s lex : List Char) (o : Operator) (h : findOp s = some (l
       rw [e] at hlen
       exact hlen (Nat.le_refl _)
 
-example : findOp "<<=1".toList = some (['<', '<', '='], .LessLessEqual) := by decide
 
 /-! ## the parser output and totality -/
 
@@ -174,9 +167,6 @@ theorem evalStr_never_panics (src : List Char) (env : Env) :
     | panic => exact hr.elim
     | fuel => exact hr.elim
 
-example : (parse "1+2*(a=3)".toList).toOption = some
-    [.term (.value 1), .term (.value 2), .term (.variable ['a']), .term (.value 3), .binary .Assign 1,
-     .binary .Multiply 3, .binary .Add 5] := by decide
 
 /-! ## short circuit -/
 
@@ -218,11 +208,6 @@ theorem shortcircuit_no_effect :
         if v ≠ 0 then eval f t env1 else eval f e env1) :=
   ⟨shortcircuit_or, shortcircuit_and, shortcircuit_cond⟩
 
-/-- `1 || (x = 1/0)`: neither the division nor the assignment happens -/
-example : evalStr "1 || (x = 1/0)".toList [] = .value 1 [] ∧
-    evalStr "0 && x++".toList [] = .value 0 [] ∧
-    evalStr "0 ? x++ : y--".toList [] = .value 0 [(['y'], ['-', '1'])] := by
-  refine ⟨?_, ?_, ?_⟩ <;> decide
 
 /-! ## prefix and postfix operators -/
 
@@ -273,8 +258,6 @@ theorem incdec_needs_variable (c : Int) (env : Env) :
     (∀ op, applyPostfix (.value c) op env = .error .assignmentToValue) := by
   refine ⟨?_, ?_, ?_⟩ <;> simp [applyPrefix, applyPostfix, requireVariable, Res.bind]
 
-example : applyPostfix (.variable ['m']) .Increment [(['m'], "9223372036854775807".toList)]
-    = .error .overflow := by decide
 
 /-! ## a variable whose value is an integer constant denotes that constant -/
 
@@ -287,9 +270,5 @@ theorem var_constant_agrees (x : Name) (c : List Char) (v : Int) (env : Env)
   unfold expandVariable
   simp only [hx, parseInteger_of_constant c v hterm hc, Res.ofOption]
 
-/-- the two witnesses that failed before the fix: `x=010` is 8, `x=0x10` is 16 -/
-example : expandVariable ['x'] [(['x'], "010".toList)] = .ok 8 ∧
-    expandVariable ['x'] [(['x'], "0x10".toList)] = .ok 16 ∧
-    parseConstant "010".toList = some 8 ∧ parseConstant "0x10".toList = some 16 := by decide
 
 end YashModel.Arith
